@@ -220,6 +220,7 @@ def run_property(pid, tier, seed, out=sys.stdout):
     solver_s = 0.0
     vacuity_unchecked = []
     refuted_known = []
+    sample_kinds = {}
     cex_budget = [6]        # at most this many solver models are decoded and replayed per run
 
     def relevant(q, f):
@@ -277,8 +278,11 @@ def run_property(pid, tier, seed, out=sys.stdout):
         verdicts = [r['verdict'] for _, r in items]
         if all(v == solve.PROVED for v in verdicts):
             discharged += 1
-            if len(samples) < 6:
-                ob, r = items[0]
+            ob, r = items[0]
+            # evidence samples: at most two per obligation kind, so that the list shows postconditions, invariants,
+            # callee preconditions, frames and bounds rather than the first few obligations of the first function
+            if sample_kinds.get(ob.kind, 0) < 2 and len(samples) < 14:
+                sample_kinds[ob.kind] = sample_kinds.get(ob.kind, 0) + 1
                 samples.append(dict(obligation=name, kind=ob.kind, function=q, line=ob.lineno, paths=len(items),
                                     verdict='proved', backend=r['backend'], solver_s=round(sum(x['time'] for _, x in items), 3)))
             continue
@@ -403,7 +407,7 @@ def run_property(pid, tier, seed, out=sys.stdout):
         by_backend['ast-dataflow'] = by_backend.get('ast-dataflow', 0) + 1
         if sr['ok'] is True:
             discharged += 1
-            if len(samples) < 8:
+            if sum(1 for x in samples if x.get("kind") == "structural") < 3:
                 samples.append(dict(obligation=sr['name'], kind='structural', verdict='proved', detail=sr['detail'][:300]))
         elif sr['ok'] is None:
             undecided.append(dict(obligation=sr['name'], why=sr['detail']))
